@@ -193,6 +193,15 @@ def _relocation(spec, ctx, io, graphs, A, B, rec_root, arg, nested, doc):
                 bad = next((u for u in want2 if got2.get(u) != want2[u]), None)
                 ctx.fail(f"{spec['ctype']}: loaded under the relative directory {str(B2)!r}: recording {bad} (stored as {str(want_rel.get(bad))!r}) has path {str(got2.get(bad))!r}, expected {str(want2.get(bad))!r}", spec, str(got2.get(bad)), str(want2.get(bad)), kind="relocate_overlapping_names")
         ctx.label("load_under_dir_named_like_stored_prefix")
+    # a directory whose first component is a literal "~" (a folder called ~, or a path the caller chose not to expand): the directory is
+    # joined in front as it was given - expanding the home directory is the caller's decision
+    for B3 in (Path("~/field data"), Path("~")):
+        loaded3 = ctx.call(spec, f"io.load(audio_dir={str(B3)!r})", io.load, doc, audio_dir=arg(B3))
+        got3 = {str(r.uuid): Path(r.path) for r in graphs.walk(loaded3)["recording_objects"]}
+        want3 = {u: B3.joinpath(*rel.parts) for u, rel in want_rel.items()}
+        if got3 != want3:
+            bad = next((u for u in want3 if got3.get(u) != want3[u]), None)
+            ctx.fail(f"{spec['ctype']}: loaded under {str(B3)!r}: recording {bad} has path {str(got3.get(bad))!r}, expected {str(want3.get(bad))!r}", spec, str(got3.get(bad)), str(want3.get(bad)), kind="relocate_tilde")
     # loading under A again restores the original paths (save/load with the same directory)
     back = ctx.call(spec, "io.load(audio_dir=A)", io.load, doc, audio_dir=arg(A))
     got_a = {str(r.uuid): Path(r.path) for r in graphs.walk(back)["recording_objects"]}
